@@ -53,10 +53,26 @@ Fixpoint reuse_ok (h : list (op * (res * bool))) : bool :=
 
 Definition count_op (f : op -> bool) (ops : list op) : nat := length (filter f ops).
 
+(* a successful format negotiation is reused by binding: the first validation that runs after a format was
+   negotiated does not negotiate again, so it cannot fail with 406 *)
+Fixpoint bind_reuses_format (seen_fmt seen_bind : bool) (steps : list (res * bool)) : bool :=
+  match steps with
+  | [] => true
+  | (x, _) :: r =>
+    match x with
+    | RFmt (Some _) => bind_reuses_format true seen_bind r
+    | RBind errs =>
+      (if seen_fmt && negb seen_bind then negb (existsb (Nat.eqb 406) errs) else true) &&
+      bind_reuses_format seen_fmt true r
+    | _ => bind_reuses_format seen_fmt seen_bind r
+    end
+  end.
+
 (* the property's clauses for one observed history *)
 Definition memo_ok (ops : list op) (steps : list (res * bool)) (lookups authn binds : nat) : bool :=
   Nat.eqb (length ops) (length steps) &&
   reuse_ok (combine ops steps) &&
+  bind_reuses_format false false steps &&
   (* the route is looked up at most once after it matched; the body is consumed at most once *)
   (binds <=? 1) &&
   (* an accepting authenticator that yielded a principal is consulted at most once per reset
